@@ -35,6 +35,16 @@ def unitary(gate, decomposition="qsd", iso=0, apply_a2=True):
     Implements a generic quantum computation from a
     unitary matrix gate using the cosine sine decomposition.
     """
+    matrix = np.asarray(gate)
+    if (
+        matrix.ndim != 2
+        or matrix.shape[0] != matrix.shape[1]
+        or not log2(matrix.shape[0]).is_integer()
+    ):
+        raise ValueError("The matrix must be square with a power-of-two dimension.")
+    if not is_unitary_matrix(matrix):
+        raise ValueError("The matrix must be unitary.")
+
     circuit = build_unitary(gate, decomposition, iso)
     if decomposition == "qsd" and apply_a2:
         return _apply_a2(circuit)
